@@ -1,11 +1,11 @@
 //! Native self-check of the specification library against published perft numbers.
 //! rustc -O spec/selfcheck.rs -o .cache/selfcheck && .cache/selfcheck
 #[path = "geom.rs"]
-mod geom;
+mod verif_geom;
 #[path = "rules.rs"]
-mod rules;
-use geom::*;
-use rules::*;
+mod verif_rules;
+use verif_geom::*;
+use verif_rules::*;
 
 fn parse(fen: &str) -> P {
     let mut p = P { col: [0; 2], pcs: [0; 6], turn: 0, rights: 0, ep: NO_EP, half: 0, full: 1 };
